@@ -87,13 +87,16 @@ theorem coo_encode_toDense (f : Format) (shape : List Nat) (es : List (Idx × α
   unfold toDense Levels.get
   rw [h]
 
+/-- a well-formed 2-d scipy array: a monotone index pointer of the right length (CSR / CSC), a 2-d shape -/
+def ScipyWf : Scipy α → Prop
+  | .csx csr shape indptr _ _ => IndptrOk indptr ∧ ∃ R C, shape = [R, C] ∧ indptr.length = (if csr then R else C) + 1
+  | .coo shape _ _ _ => ∃ R C, shape = [R, C]
+
 /-- **from_scipy_meaning.** Whatever `_from_scipy` accepts means, under the level semantics, the
 scipy array it was made from (CSR, CSC and COO alike). -/
 theorem from_scipy_meaning (s : Scipy α) (m : ScipyMeta) (x : MArr α) (fill : α)
     (hx : fromScipy s m = .ok x)
-    (hwf : match s with
-      | .csx csr shape indptr _ _ => IndptrOk indptr ∧ ∃ R C, shape = [R, C] ∧ indptr.length = (if csr then R else C) + 1
-      | .coo shape _ _ _ => ∃ R C, shape = [R, C]) :
+    (hwf : ScipyWf s) :
     x.dense fill = (allIdx s.shape).map (s.get fill) := by
   cases s with
   | csx csr shape indptr indices data =>
@@ -307,6 +310,62 @@ theorem scipy_roundtrip_id (s : Scipy α) (m : ScipyMeta) (x : MArr α) (hx : fr
           · cases hx
           · cases hx
             simp only [toScipy, hk]
+
+/-! ## scipy inputs that are not canonical -/
+
+/-- the full statement: what the level walk reads from an entry list (the FIRST entry stored for an index — `toDense`,
+`from_scipy_meaning`) is what scipy means by it (the SUM of the entries stored for that index) -/
+def Statement_scipy_meaning_sum : Prop := ∀ (es : List (Idx × Int)) (i : Idx), lookup es 0 i = sumAt es i
+
+/-- the inputs on which the two meanings differ: an index stored more than once (`has_canonical_format == False` through
+duplicate entries) -/
+def ExcludedDuplicates (es : List (Idx × Int)) : Prop := ¬ (keysOf es).Nodup
+instance (es : List (Idx × Int)) : Decidable (ExcludedDuplicates es) := by unfold ExcludedDuplicates; infer_instance
+
+/-- **scipy_meaning_sum_counterexample.** `_from_scipy` hands duplicate entries to a NonUnique level format unchanged: the
+index (0, 1) stored with 1 and with 10 reads 1 under the level semantics and means 11 to scipy. -/
+theorem scipy_meaning_sum_counterexample : ¬ Statement_scipy_meaning_sum := by
+  intro h
+  have := h [([0, 1], 1), ([0, 1], 10)] [0, 1]
+  revert this
+  decide
+
+/-- **scipy_meaning_sum_partial.** Without duplicate indices (sorted or not, explicit zeros anywhere) the two meanings agree,
+for every entry list and every index. -/
+theorem scipy_meaning_sum_partial (es : List (Idx × Int)) (hnd : ¬ ExcludedDuplicates es) (i : Idx) :
+    lookup es 0 i = sumAt es i := by
+  have hnd' : (keysOf es).Nodup := Decidable.not_not.mp hnd
+  clear hnd
+  induction es with
+  | nil => simp [sumAt]
+  | cons e es ih =>
+    simp only [keysOf, List.map_cons, List.nodup_cons] at hnd'
+    rw [lookup_cons]
+    unfold sumAt
+    by_cases h : e.1 = i
+    · have hz : (es.filter fun e => e.1 == i) = [] := by
+        rw [List.filter_eq_nil_iff]
+        intro x hx hxi
+        apply hnd'.1
+        have : x.1 = i := by simpa using hxi
+        rw [h, ← this]
+        exact List.mem_map.mpr ⟨x, hx, rfl⟩
+      simp [h, hz]
+    · have hb : (e.1 == i) = false := by simpa using h
+      rw [if_neg h, ih hnd'.2, List.filter_cons, hb]
+      simp [sumAt]
+
+/-- **from_scipy_meaning_sum.** Whatever `_from_scipy` accepts means, under the level semantics, what scipy means by the input
+(`toarray()`: duplicates summed) — provided no index is stored twice. -/
+theorem from_scipy_meaning_sum (s : Scipy Int) (m : ScipyMeta) (x : MArr Int)
+    (hx : fromScipy s m = .ok x)
+    (hwf : ScipyWf s)
+    (hnd : ¬ ExcludedDuplicates (s.triples 0)) :
+    x.dense 0 = (allIdx s.shape).map (sumAt (s.triples 0)) := by
+  rw [from_scipy_meaning s m x 0 hx hwf]
+  apply List.map_congr_left
+  intro i _
+  exact scipy_meaning_sum_partial (s.triples 0) hnd i
 
 /-! ## `_determine_format` -/
 
